@@ -289,3 +289,11 @@ package xlsx
 //@   property C02
 //@   flags callsites
 //@   callsite io.ReadAll(x) requires members_are_read_through_readPart: false
+
+// ---- C17: a text line of a table is its fields joined by tabs, nothing trimmed: an empty leading cell keeps its tab, so
+// every value stays in the field of its column ----
+//@ func (ParsedTable) ToText results (res)
+//@   property C17
+//@   flags nosafety
+//@   callsite WriteString#1(s) requires header_line_is_the_joined_fields: s == strings.Join(t.Headers, "\t")
+//@   callsite WriteString#3(s) requires row_line_is_the_joined_fields: s == strings.Join(row, "\t")
